@@ -1,6 +1,6 @@
 (* Property theorems of the Sync cluster. Nothing but statements, [exact], and
    Print Assumptions. *)
-From FC Require Import Sync.Model Sync.Proofs27 Sync.Proofs28.
+From FC Require Import Sync.Model Sync.Import Sync.Proofs27 Sync.Proofs28 Sync.Proofs26.
 Open Scope N_scope.
 
 (* C27. For every sorted cache (a BTreeMap), every non-empty range ending below
@@ -44,3 +44,47 @@ Print Assumptions committed_monotone.
 Theorem shape_checker_sound : forall g st, shape_ok g st = true <-> Shape g st.
 Proof. exact shape_ok_sound. Qed.
 Print Assumptions shape_checker_sound.
+
+(* C26. One import round over ANY peer/consensus/executor script, from any cache that holds
+   only checked headers and blocks: the execution log passes the checker (executed heights are
+   consecutive from the start of the processing range, every executed block passed the
+   consensus check and carries the transactions its header commits to, success reports only
+   after complete batches) and the cache invariant is kept. *)
+Theorem import_round_ok : forall size sc st c0,
+  1 <= size -> CacheInv c0 ->
+  (forall s e, process_range st = Some (s, e) -> s <= e /\ e < u32max) ->
+  round_okb (import_round size sc st c0) = true /\ CacheInv (o_cache (import_round size sc st c0)).
+Proof. exact round_ok_all. Qed.
+Print Assumptions import_round_ok.
+
+(* ... hence for every history of rounds interleaved with observed/committed-height events. *)
+Theorem import_history_ok : forall size rounds, 1 <= size -> forall st c, CacheInv c -> rounds_ok size st c rounds.
+Proof. exact history_ok_all. Qed.
+Print Assumptions import_history_ok.
+
+(* peers that supply bad data are reported *)
+Theorem missing_headers_reported : forall sc a b p m items,
+  alook (hb sc) a = Some (p, m, items) -> m = 0 \/ m = 2 -> a < b ->
+  let '(peer, hs, evs) := get_headers_batch sc a b in
+  N.of_nat (length hs) < b - a -> In (FRep p R_MISSING_HEADERS) evs.
+Proof. exact headers_deficit_reported. Qed.
+Print Assumptions missing_headers_reported.
+
+Theorem invalid_header_reported : forall sc c0 a b p m items,
+  alook (hb sc) a = Some (p, m, items) -> m = 0 \/ m = 2 ->
+  snd (take_valid (snd (fst (get_headers_batch sc a b)))) = true ->
+  In (FRep p R_BAD_HEADER) (snd (fetch_chunk sc c0 (CNone a b))).
+Proof. exact bad_header_reported. Qed.
+Print Assumptions invalid_header_reported.
+
+Theorem bad_transactions_reported : forall sc p a b hs lst,
+  last_hdr hs = Some lst ->
+  let evs := snd (blocks_stage sc (Some p) a b hs) in
+  match alook (tb sc) a with
+  | Some (_, 0, items) =>
+      ((length items < length hs)%nat -> In (FRep p R_MISSING_TXS) evs) /\
+      (snd (zip_blocks hs items) = true -> In (FRep p R_INVALID_TXS) evs)
+  | _ => In (FRep p R_MISSING_TXS) evs
+  end.
+Proof. exact transactions_deficit_reported. Qed.
+Print Assumptions bad_transactions_reported.
